@@ -24,16 +24,17 @@ RULE = (
 )
 TOLERANCES = {
     "direct": "1e-9 * max|reference solution| per block, residual 1e-9 * |rhs|",
-    "amg / cg (run with atol=rtol=1e-12, maxiter=400)": "1e-6 * max|reference solution|, residual 1e-6 * |rhs|",
+    "amg / cg (run with atol=rtol=1e-12, maxiter=5000)": "1e-6 * max|reference solution|, residual 1e-6 * |rhs|",
     "end-to-end distances": "1e-9 relative (direct) / 1e-6 (amg, cg)",
+    "iterative back-ends with default options (documented rtol 1e-6), rhs scaled by 1, 1e-3, 1e-6, 1e-9": "residual of the full system <= 1e-4 * |rhs|",
 }
 ASSUMPTIONS = [
     "the reference cell is the one the solver advertises (constrained_cell_flat_index)",
     "the mixed system is [[W M_f, -div^T, 0], [div, 0, -c^T], [0, c, 0]] with diagonal flux block (class docstrings)",
 ]
 FLOORS = {
-    "quick": {"solves_same_system": 900, "satisfies_full_system": 900, "formulation_usable": 300, "end_to_end_same_distance": 100},
-    "thorough": {"solves_same_system": 3000, "satisfies_full_system": 3000, "formulation_usable": 1000, "end_to_end_same_distance": 400},
+    "quick": {"solves_same_system": 900, "satisfies_full_system": 900, "formulation_usable": 300, "end_to_end_same_distance": 100, "default_tolerance_relative_residual": 800},
+    "thorough": {"solves_same_system": 3000, "satisfies_full_system": 3000, "formulation_usable": 1000, "end_to_end_same_distance": 400, "default_tolerance_relative_residual": 2500},
 }
 COMBOS = [("full", "direct"), ("flux_reduced", "direct"), ("pressure", "direct"), ("flux_reduced", "amg"), ("pressure", "amg"),
           ("flux_reduced", "cg"), ("pressure", "cg")]
@@ -43,6 +44,7 @@ def shards(tier, seed):
     shapes = [s for s in all_shapes() if int(np.prod(s)) >= 2]
     if tier == "quick":
         must = [s for s in shapes if len(s) == 1 or (len(s) == 2 and (1 in s or s == (2, 2))) or (len(s) == 3 and 1 in s and max(s) <= 3)]
+        must += [(5, 5, 5), (5, 4, 5)]  # more than 100 cells: the iterative back-ends build a genuine multilevel hierarchy
         rest = [s for s in shapes if s not in must]
         rng = np.random.default_rng([seed, 8])
         pick = [rest[i] for i in rng.choice(len(rest), size=24, replace=False)]
@@ -153,6 +155,24 @@ def run_shard(spec, R):
                 R.sig([list(shape), formulation, backend, label], nontrivial=nf > 0, cls=f"{dim}d/{formulation}/{backend}")
             if usable:
                 R.ok("formulation_usable")
+            # iterative back-ends with their *documented default* tolerances (rtol 1e-6) on right-hand sides of
+            # very different magnitude: the relative residual of the original full system must stay small
+            if backend in ("amg", "cg") and mkey is None:
+                optd = dict(opt)
+                # default tolerances; only the iteration cap is lifted (stand-alone AMG needs several hundred
+                # V-cycles on anisotropic 3-D grids; hitting the documented default cap of 100 is not judged)
+                optd["linear_solver_options"] = {"maxiter": 5000}
+                ok, wd = R.guarded("formulation_usable", lambda: darsia.WassersteinDistanceNewton(grid, None, optd), key=lambda e, w: key)
+                if ok:
+                    for scale in (1.0, 1e-3, 1e-6, 1e-9):
+                        rhs = rhs_vec() * scale
+                        A = dense_system(wA)
+                        ok, out = R.guarded("formulation_usable", lambda: wd.linear_solve(lib_matrix(wA), rhs.copy(), np.zeros_like(rhs), reuse_solver=False), key=lambda e, w: key)
+                        if ok:
+                            sol = np.asarray(out[0], float)
+                            res = float(np.linalg.norm(A @ sol - rhs)) if np.all(np.isfinite(sol)) else float("inf")
+                            R.check(res <= 1e-4 * float(np.linalg.norm(rhs)), "default_tolerance_relative_residual",
+                                    lambda: {**case, "rhs_scale": scale, "relative_residual": res / max(float(np.linalg.norm(rhs)), 1e-300)}, group=f"{formulation}/{backend}")
             # end-to-end: same fixed number of iterations under each (formulation, back-end)
             ok, wE = R.guarded("formulation_usable", lambda: darsia.WassersteinDistanceNewton(grid, None, dict(opt)), key=lambda e, w: key)
             if ok:
